@@ -1,0 +1,26 @@
+//go:build verif
+
+// Contracts for the deductive verifier in /verif (comment-only; compiled only with -tags verif).
+package random
+
+// Begin block at height H: every request queued for H-1 is removed from the queue; a non-oracle request gets its
+// number stored under its id (the documented function of app hash, block time and requester); requests queued for
+// other heights and numbers of other ids are untouched; the block never aborts (C18, C13).
+//@ func BeginBlocker
+//@   property C18, C13
+//@   requires height >= 1 && time >= 1000000000
+//@   requires keeper.queueWF
+//@   modifies randoms, rqueue, oracleReqs, bal, supply
+//@   invariant #1 pos:  0 <= it_idx && it_idx <= it_n
+//@   invariant #1 todo: forall j:Int :: it_idx <= j && j < it_n ==> has(rqueue, height - 1, it_seq[j].k1) && get(rqueue, height - 1, it_seq[j].k1) == old(get(rqueue, height - 1, it_seq[j].k1))
+//@   invariant #1 done: forall j:Int :: 0 <= j && j < it_idx ==> !has(rqueue, height - 1, it_seq[j].k1)
+//@                      && (!old(get(rqueue, height - 1, it_seq[j].k1)).Oracle ==> has(randoms, it_seq[j].k1) && get(randoms, it_seq[j].k1).Height == height - 1
+//@                          && get(randoms, it_seq[j].k1).RequestTxHash == old(get(rqueue, height - 1, it_seq[j].k1)).TxHash)
+//@   invariant #1 qframe: forall q:Int :: forall i:Bytes :: q != height - 1 ==> has(rqueue, q, i) == old(has(rqueue, q, i)) && get(rqueue, q, i) == old(get(rqueue, q, i))
+//@   invariant #1 rframe: forall i:Bytes :: !old(has(rqueue, height - 1, i)) ==> has(randoms, i) == old(has(randoms, i)) && get(randoms, i) == old(get(randoms, i))
+//@   ensures drained:   forall i:Bytes :: old(has(rqueue, height - 1, i)) ==> !has(rqueue, height - 1, i)
+//@   ensures fulfilled: forall i:Bytes :: old(has(rqueue, height - 1, i)) && !old(get(rqueue, height - 1, i)).Oracle ==> has(randoms, i) && get(randoms, i).Height == height - 1
+//@   ensures queue_frame: forall q:Int :: forall i:Bytes :: q != height - 1 ==> has(rqueue, q, i) == old(has(rqueue, q, i)) && get(rqueue, q, i) == old(get(rqueue, q, i))
+//@   ensures randoms_frame: forall i:Bytes :: !old(has(rqueue, height - 1, i)) ==> has(randoms, i) == old(has(randoms, i)) && get(randoms, i) == old(get(randoms, i))
+//@   nopanic
+//@ end
